@@ -1,4 +1,5 @@
 """Engine C - operators, function contracts and laws, datadog search, grok, diagnostics, timezones."""
+import re
 import json, os, time, random, itertools
 from common import *
 from engine_a import validate, aggregate
@@ -288,6 +289,7 @@ def check_diag(prop, tier, seed, collect=False):
         "states": gst + agg["states"], "transitions": gtr + agg["transitions"], "traces_validated_against_impl": cnt.get("sources", 0),
         "sources": cnt.get("sources", 0), "accepted_programs_also_run": cnt.get("accepted", 0),
         "sources_with_diagnostics": cnt.get("with_diagnostics", 0), "labels_checked": cnt.get("labels", 0),
+        "sources_ending_in_memory_or_stack_exhaustion_not_judged": cnt.get("exhausted", 0),
         "witnesses_for_other_properties": sorted({sig_of(v) for v in agg["viols"] if v["prop"] != prop}),
     }
     assumptions = ["char-boundary tests use str::is_char_boundary on the real source; rendering uses Formatter (plain and coloured)",
@@ -330,7 +332,7 @@ def check_panics(prop, tier, seed):
                 "texts as in C33 - compiled, every diagnostic rendered plain and coloured, accepted programs run; (2) the full stdlib call matrix "
                 "as in C03; (3) the TLC-generated programs of the C08/C09/C13/C15 grammars on every event with hooks on. every executed case "
                 "counts (a rejected call tuple does not)",
-        "samples": [{"source_texts": c1.get("sources", 0)}, {"stdlib_calls": c2.get("calls", 0), "outcomes": {k: c2.get(k, 0) for k in ("ok", "err", "rejected", "panic", "timeout", "died")}},
+        "samples": [{"source_texts": c1.get("sources", 0), "ended_in_memory_or_stack_exhaustion_not_judged": c1.get("exhausted", 0)}, {"stdlib_calls": c2.get("calls", 0), "outcomes": {k: c2.get(k, 0) for k in ("ok", "err", "rejected", "panic", "timeout", "died")}},
                     {"core_program_runs": runs3}],
         "states": a1["states"] + a2["states"] + st3, "transitions": a1["transitions"] + a2["transitions"] + st3,
         "traces_validated_against_impl": c1.get("sources", 0) + c2.get("calls", 0) + runs3,
@@ -365,7 +367,7 @@ def plain(v):
     """law encoding -> transport encoding for the event"""
     t = v["t"]
     if t == "bytes":
-        return {"t": "bytes", "s": v["s"]}
+        return {"t": "bytes", "s": v["s"]} if "s" in v else {"t": "bytes", "c": v["c"]}
     if t == "int":
         return {"t": "int", "w": v["w"]} if v.get("n") == "big" else {"t": "int", "n": v["n"]}
     if t == "arr":
@@ -484,14 +486,178 @@ def law_cases(prop, tier, rnd, U):
         stamps = [t.replace("Z", ".000000000Z") for t in ["1970-01-01T00:00:00Z", "2021-02-03T04:05:06Z", "1969-12-31T23:59:59Z", "2038-01-19T03:14:08Z",
                                                           "2262-04-11T23:47:16Z", "1677-09-21T00:12:44Z"]]
         for ts in stamps:
-            for unit in ["seconds", "milliseconds", "nanoseconds"]:
+            for unit in ["seconds", "milliseconds", "microseconds", "nanoseconds"]:
                 add("inverse", f"to_unix_timestamp/from_unix_timestamp({unit})",
                     {"fwd": f"to_unix_timestamp!(.x, unit: \"{unit}\")", "back": f"from_unix_timestamp!(to_unix_timestamp!(.x, unit: \"{unit}\"), unit: \"{unit}\")"},
                     {"x": {"t": "ts", "s": ts}})
+        # the other direction is lossless for every unit and every count, before and after the epoch, whole seconds or not
+        per = {"seconds": 1, "milliseconds": 10**3, "microseconds": 10**6, "nanoseconds": 10**9}
+        for unit, k in per.items():
+            counts = [0, 1, -1, k, -k, k + 1, -k - 1, -k + 1, k // 2, -(k // 2), -(k // 2) - k, 3 * k + k // 4, -3 * k - k // 4, 1600000000 * k + 123 % k, -1600000000 * k - 123 % k]
+            counts += [rnd.randint(-2 * 10**9, 2 * 10**9) * k // rnd.choice([1, 7, 1000]) for _ in range(40 if tier == "quick" else 1500)]
+            counts += [rnd.randint(-5 * k, 5 * k) for _ in range(40 if tier == "quick" else 1500)]
+            for n in counts:
+                add("inverse", f"from_unix_timestamp/to_unix_timestamp({unit})",
+                    {"fwd": f"from_unix_timestamp!(.x, unit: \"{unit}\")", "back": f"to_unix_timestamp!(from_unix_timestamp!(.x, unit: \"{unit}\"), unit: \"{unit}\")"},
+                    {"x": lint(n)})
+        for ts in stamps:
             for fmt in ["%+", "%Y-%m-%dT%H:%M:%S%.f%:z", "%s", "%Y-%m-%d %H:%M:%S %z"]:
                 add("inverse", f"format_timestamp/parse_timestamp({fmt})",
                     {"fwd": f"format_timestamp!(.x, \"{fmt}\")", "back": f"parse_timestamp!(format_timestamp!(.x, \"{fmt}\"), \"{fmt}\")"},
                     {"x": {"t": "ts", "s": ts}})
+    elif prop == "C22":
+        BA = U["BYTE_ALPHABET"]
+        TA = U["TEXT_ALPHABET"]
+        def lbytes(bs):
+            return {"t": "bytes", "c": list(bs)}
+        def shape_b(bs):
+            return "empty" if not bs else ("len%3=" + str(len(bs) % 3))
+        # byte strings: every string over the alphabet up to length 2 (thorough 3) + seeded longer / repetitive / random ones
+        B = [()] + [t for k in range(1, (3 if tier == "quick" else 4)) for t in itertools.product(BA, repeat=k)]
+        if tier == "quick":
+            B = [b for b in B if len(b) <= 2] + rnd.sample([b for b in B if len(b) == 3], 600) if len(B) > 2000 else B
+        longer = [tuple(rnd.choice(BA) for _ in range(rnd.randint(4, 40))) for _ in range(150 if tier == "quick" else 1500)]
+        longer += [tuple(rnd.getrandbits(8) for _ in range(rnd.randint(1, 300))) for _ in range(100 if tier == "quick" else 1000)]
+        longer += [tuple([rnd.choice(BA)] * rnd.randint(50, 5000)) for _ in range(10 if tier == "quick" else 60)]
+        longer += [tuple(rnd.getrandbits(8) for _ in range(n)) for n in (255, 256, 257, 65535, 65536, 70000)]
+        def codec(fn, enc, dec, x, shape, total=True, model="none", **kw):
+            inp = {"x": x, "total": total, "model": model, "shape": shape}
+            inp.update(kw)
+            add("codec", fn, {"enc": enc, "dec": dec}, inp)
+        for bs in B + longer:
+            x = lbytes(bs)
+            small = len(bs) <= 64
+            sh = shape_b(bs)
+            if small:
+                codec("encode_base16/decode_base16", "encode_base16!(.x)", "decode_base16!(encode_base16!(.x))", x, sh, model="base16")
+                for cs, url in (("standard", False), ("url_safe", True)):
+                    for pad in (True, False):
+                        e = f'encode_base64!(.x, padding: {str(pad).lower()}, charset: "{cs}")'
+                        codec(f"encode_base64/decode_base64({cs},{'pad' if pad else 'nopad'})", e, f'decode_base64!({e}, charset: "{cs}")', x, sh,
+                              model="base64", urlsafe=url, pad=pad)
+            if small or rnd.random() < 0.5:
+                zs = [("gzip", ""), ("zlib", ""), ("zstd", ""), ("snappy", "")]
+                if len(bs) <= 3 or rnd.random() < 0.3:
+                    zs += [("gzip", ", compression_level: 0"), ("gzip", ", compression_level: 9"), ("zlib", ", compression_level: 0"),
+                           ("zlib", ", compression_level: 9"), ("zstd", ", compression_level: 1"), ("zstd", ", compression_level: 7")]
+                for z, opt in zs:
+                    codec(f"encode_{z}/decode_{z}{opt.replace(', compression_level: ', '@')}", f"encode_{z}!(.x{opt})", f"decode_{z}!(encode_{z}!(.x{opt}))", x, sh)
+                for pre in (True, False):
+                    e = f"encode_lz4!(.x, prepend_size: {str(pre).lower()})"
+                    codec(f"encode_lz4/decode_lz4({'prepended' if pre else 'block'})", e, f"decode_lz4!({e}, prepended_size: {str(pre).lower()})", x, sh)
+        # text: percent (every set), punycode (labels), charsets
+        T = [""] + ["".join(chr(c) for c in t) for k in range(1, 3) for t in itertools.product(TA, repeat=k)]
+        T += ["%41", "100%25", "%zz", "%4", "a%2Fb", "%C3%A9", "%e9", "%%41"]
+        T += ["".join(chr(rnd.choice(TA)) for _ in range(rnd.randint(3, 12))) for _ in range(200 if tier == "quick" else 3000)]
+        for t in T:
+            x = lstr(t)
+            sh = ("percent-hex-hex" if re.search("%[0-9a-fA-F]{2}", t) else "has-percent" if "%" in t else "no-percent") + ("+non-ascii" if any(ord(c) > 127 for c in t) else "")
+            for aset in U["PERCENT_SETS"]:
+                e = f'encode_percent!(.x, ascii_set: "{aset}")'
+                codec(f"encode_percent/decode_percent({aset})", e, f"decode_percent!({e})", x, sh, model="percent_nonalnum" if aset == "NON_ALPHANUMERIC" else "percent")
+        labels = ["a", "abc", "a-b", "münchen", "bücher", "例え", "пример", "straße", "ü", "éa", "aé", "a1", "xn", "日本語", "mañana", "façade", "a" * 30 + "é",
+                  "ß", "ı", "ς", "Ünïcödé".lower()]
+        labels += ["".join(rnd.choice("abcxyz019-éüñßяж中日") for _ in range(rnd.randint(1, 12))).strip("-") or "a" for _ in range(100 if tier == "quick" else 1500)]
+        for lab in labels:
+            for dom in (lab, lab + ".com", "www." + lab + ".example"):
+                sh = "label" + ("+non-ascii" if any(ord(c) > 127 for c in dom) else "")
+                codec("encode_punycode/decode_punycode", "encode_punycode!(.x)", "decode_punycode!(encode_punycode!(.x))", lstr(dom), sh, total=False)
+                codec("encode_punycode/decode_punycode(validate:false)", "encode_punycode!(.x, validate: false)", "decode_punycode!(encode_punycode!(.x, validate: false), validate: false)",
+                      lstr(dom), sh, total=False)
+        charsets = {"utf-8": "aé€😀я中", "utf-16le": None, "iso-8859-1": "aé ÿÀ~", "windows-1252": "aé€ÿ‚", "windows-1251": "aяЖё№", "koi8-r": "aяЖ",
+                    "shift_jis": "aあア日本", "euc-kr": "a한국", "gbk": "a中文", "big5": "a中文", "iso-8859-15": "a€é", "euc-jp": "aあ日本"}
+        for cset, alpha in charsets.items():
+            if alpha is None:
+                continue
+            texts = [""] + ["".join(t) for k in range(1, 3) for t in itertools.product(alpha, repeat=k)]
+            texts += ["".join(rnd.choice(alpha) for _ in range(rnd.randint(3, 20))) for _ in range(20 if tier == "quick" else 300)]
+            for t in texts:
+                codec(f"encode_charset/decode_charset({cset})", f'encode_charset!(.x, "{cset}")', f'decode_charset!(encode_charset!(.x, "{cset}"), "{cset}")', lstr(t),
+                      "representable", total=True)
+    elif prop == "C23":
+        BA = U["BYTE_ALPHABET"]
+        def lbytes(bs):
+            return {"t": "bytes", "c": list(bs)}
+        def rb(n):
+            return tuple(rnd.getrandbits(8) for _ in range(n))
+        plains = [(), (0,), (97,), (128,), (255,)] + [rb(n) for n in (2, 15, 16, 17, 31, 32, 33, 47, 48, 64, 100, 255, 256, 1000)]
+        # plaintexts that end like padding (0x80 00.., 01, 02 02, 00 00 03, 10x16)
+        plains += [(65, 128), (65, 128, 0, 0), (65, 1), (65, 2, 2), (65, 0, 0, 3), tuple([16] * 16), tuple([0] * 16), tuple([65] * 15 + [1]), tuple([65] * 14 + [128, 0])]
+        plains += [tuple(rnd.choice(BA) for _ in range(rnd.randint(1, 40))) for _ in range(10 if tier == "quick" else 200)]
+        nkeys = 2 if tier == "quick" else 6
+        for alg, (klen, ivlen) in sorted(U["CIPHERS"].items()):
+            variants = [alg] + ([alg.lower()] if tier != "quick" or alg.endswith("CFB") else [])
+            for a in variants:
+                for _ in range(nkeys):
+                    key, iv = rb(klen), rb(ivlen)
+                    for ptx in plains:
+                        add("cipher", f"encrypt/decrypt({alg})", {"enc": f'encrypt!(.x, "{a}", key: .key, iv: .iv)', "dec": f'decrypt!(encrypt!(.x, "{a}", key: .key, iv: .iv), "{a}", key: .key, iv: .iv)'},
+                            {"x": lbytes(ptx), "key": lbytes(key), "iv": lbytes(iv), "documented": True, "shape": "empty" if not ptx else ("block-multiple" if len(ptx) % 16 == 0 else "partial-block")})
+                # wrong sizes must not be accepted silently as a different cipher: whatever encrypts must decrypt back
+                for kl, il in ((klen - 1, ivlen), (klen, ivlen + 1), (klen + 8, ivlen)):
+                    add("cipher", f"encrypt/decrypt({alg})", {"enc": f'encrypt!(.x, "{a}", key: .key, iv: .iv)', "dec": f'decrypt!(encrypt!(.x, "{a}", key: .key, iv: .iv), "{a}", key: .key, iv: .iv)'},
+                        {"x": lbytes(rb(20)), "key": lbytes(rb(kl)), "iv": lbytes(rb(il)), "documented": False, "shape": "undocumented-sizes"})
+        import ipaddress
+        v4 = ["0.0.0.0", "255.255.255.255", "127.0.0.1", "10.0.0.1", "192.168.1.1", "1.2.3.4", "224.0.0.1", "169.254.0.1"]
+        v4 += [str(ipaddress.IPv4Address(rnd.getrandbits(32))) for _ in range(150 if tier == "quick" else 3000)]
+        v6 = ["::", "::1", "2001:db8::1", "ffff:ffff:ffff:ffff:ffff:ffff:ffff:ffff", "fe80::1", "::ffff:1.2.3.4", "64:ff9b::1.2.3.4", "1:2:3:4:5:6:7:8", "2001:db8:0:0:1::1", "::ffff:0:0"]
+        v6 += [str(ipaddress.IPv6Address(rnd.getrandbits(128))) for _ in range(150 if tier == "quick" else 3000)]
+        v6 += [str(ipaddress.IPv6Address(rnd.getrandbits(32))) for _ in range(20)] + [str(ipaddress.IPv6Address((0xffff << 32) | rnd.getrandbits(32))) for _ in range(20)]
+        for mode, klen in sorted(U["IP_MODES"].items()):
+            keys = [rb(klen) for _ in range(3 if tier == "quick" else 10)]
+            for ip in v4 + v6:
+                key = rnd.choice(keys)
+                add("ip_cipher", f"encrypt_ip/decrypt_ip({mode})",
+                    {"orig": "ip_pton!(.x)", "enc": f'encrypt_ip!(.x, .key, "{mode}")', "back": f'ip_pton!(decrypt_ip!(encrypt_ip!(.x, .key, "{mode}"), .key, "{mode}"))'},
+                    {"x": lstr(ip), "key": lbytes(key), "documented": True, "shape": "v6" if ":" in ip else "v4"})
+    elif prop == "C21":
+        JA = U["JSON_ALPHABET"]
+        import struct
+        def lfloat(f):
+            bits = struct.unpack(">Q", struct.pack(">d", f))[0]
+            return {"t": "float", "b": [(bits >> 48) & 0xffff, (bits >> 32) & 0xffff, (bits >> 16) & 0xffff, bits & 0xffff]}
+        def rfloat():
+            while True:
+                bits = rnd.getrandbits(64)
+                if (bits >> 52) & 0x7ff != 0x7ff:
+                    return struct.unpack(">d", struct.pack(">Q", bits))[0]
+        strs = [""] + [chr(c) for c in JA] + ["".join(chr(c) for c in t) for t in itertools.product(JA, repeat=2)]
+        strs += ["".join(chr(rnd.choice(JA)) for _ in range(rnd.randint(3, 10))) for _ in range(100 if tier == "quick" else 2000)]
+        floats = [0.0, -0.0, 1.0, -1.0, 0.1, 0.2, 0.3, 1e23, 1e22, 5e-324, 2.2250738585072014e-308, 2.225073858507201e-308, 1.7976931348623157e308, -1.7976931348623157e308,
+                  9007199254740992.0, 9007199254740993.0, 1e15, 1e16, 1e17, 123456789012345680.0, 0.000001, 1e-7, 1.5, 2.5e-5, 4.35, 8.41e21, 7.3177701707893310e15,
+                  2.0**63, -(2.0**63), 2.0**64, 1e300, 1e-300, 3.141592653589793, 2.718281828459045, 1e21, 1e20, 123456.789e3]
+        floats += [rfloat() for _ in range(600 if tier == "quick" else 20000)]
+        floats += [float(rnd.randint(-10**6, 10**6)) / 10 ** rnd.randint(0, 6) for _ in range(300 if tier == "quick" else 5000)]
+        ints = [0, 1, -1, 2**31, -2**31, 2**53, 2**53 + 1, 2**63 - 1, -2**63, 10**18, -10**18] + [rnd.getrandbits(64) - 2**63 for _ in range(100 if tier == "quick" else 2000)]
+        def jadd(x, shape):
+            add("json_roundtrip", "encode_json/parse_json", {"compact": "parse_json!(encode_json(.x))", "pretty": "parse_json!(encode_json(.x, pretty: true))", "serde": "@serde x"},
+                {"x": x, "shape": shape})
+        for s_ in strs:
+            jadd(lstr(s_), "string")
+        for f in floats:
+            jadd(lfloat(f), "float")
+        for n in ints:
+            jadd(lint(n), "integer")
+        for v in ({"t": "null"}, {"t": "bool", "v": True}, {"t": "bool", "v": False}, larr([]), lobj({})):
+            jadd(v, "scalar")
+        def leaf():
+            k = rnd.randint(0, 5)
+            return [lambda: lstr(rnd.choice(strs)), lambda: lfloat(rnd.choice(floats)), lambda: lint(rnd.choice(ints)), lambda: {"t": "null"},
+                    lambda: {"t": "bool", "v": rnd.random() < 0.5}, lambda: lstr(rnd.choice(strs[:60]))][k]()
+        def tree(d):
+            k = rnd.random()
+            if d == 0 or k < 0.4:
+                return leaf()
+            if k < 0.7:
+                return larr([tree(d - 1) for _ in range(rnd.randint(0, 3))])
+            return lobj({rnd.choice(strs[:400]): tree(d - 1) for _ in range(rnd.randint(0, 3))})
+        for _ in range(600 if tier == "quick" else 10000):
+            jadd(tree(3), "nested")
+        for d in (20, 60, 100):
+            x = lint(1)
+            for _ in range(d):
+                x = larr([x])
+            jadd(x, f"deep-array-{d}")
     return cases
 
 
@@ -499,7 +665,8 @@ def check_laws(prop, tier, seed):
     t0 = time.time()
     wd = workdir(f"{prop}_{tier}")
     build_harness()
-    U, gst, gtr = universes("GenLaws.tla", wd, ["STR_ALPHABET", "KV_ALPHABET", "DELIMS", "BASES"])
+    U, gst, gtr = universes("GenLaws.tla", wd, ["STR_ALPHABET", "KV_ALPHABET", "DELIMS", "BASES", "BYTE_ALPHABET", "TEXT_ALPHABET", "PERCENT_SETS",
+                                                      "CIPHERS", "IP_MODES", "JSON_ALPHABET"])
     rnd = random.Random(seed)
     cases = law_cases(prop, tier, rnd, U)
     rnd.shuffle(cases)
@@ -652,7 +819,7 @@ def check_dd(prop, tier, seed):
     t0 = time.time()
     wd = workdir(f"{prop}_{tier}")
     build_harness()
-    U, gst, gtr = universes("DdSearch.tla", wd, ["LEAVES", "DEPTH1", "DEPTH2"])
+    U, gst, gtr = universes("DdSearch.tla", wd, ["LEAVES", "DEPTH1", "DEPTH2", "NUMVALS", "NUMBOUNDS", "STRVALS", "STRBOUNDS", "GLOBS", "TAGS"])
     leaves, d1, d2 = U["LEAVES"], U["DEPTH1"], U["DEPTH2"]
     rnd = random.Random(seed)
     cases = []
@@ -692,6 +859,64 @@ def check_dd(prop, tier, seed):
                         cases.append({"worker": "eval", "f": "match_datadog_query", "args": [], "ret": [], "src": rng, "law": {"name": "dd_range", "fn": "match_datadog_query"},
                                       "inp": {"range": rng, "shape": ("inclusive" if incl else "exclusive") + ("-open" if "*" in (lo, hi) else "") + ":" + f},
                                       "event": e, "exprs": {"range": m(rng), "lo": m(loq), "hi": m(hiq)}})
+        # leaf semantics against FnLaws!DdLeaf: abstract leaf x abstract event (both from DdSearch.tla's universes), rendered here
+        import struct
+        def num_text(b10, as_float=False):
+            if b10 % 10 == 0 and not as_float:
+                return str(b10 // 10)
+            return ("-" if b10 < 0 else "") + f"{abs(b10) // 10}.{abs(b10) % 10}"
+        def num_val(v):
+            if v["fl"]:
+                bits = struct.unpack(">Q", struct.pack(">d", v["n10"] / 10))[0]
+                return {"t": "float", "b": [(bits >> 48) & 0xffff, (bits >> 32) & 0xffff, (bits >> 16) & 0xffff, bits & 0xffff]}
+            return {"t": "int", "n": v["n10"] // 10}
+        cps = lambda u: "".join(chr(c) for c in u)
+        def qtext(u):       # escape what the query syntax treats specially inside a bare value
+            return "".join(("\\" + ch) if ch in ' :"()\\' else ch for ch in cps(u))
+        OPS = {"lt": "<", "le": "<=", "gt": ">", "ge": ">="}
+        def leaf_case(leaf, q, absev, conc, shape):
+            cases.append({"worker": "eval", "f": "match_datadog_query", "args": [], "ret": [], "src": q, "law": {"name": "dd_leaf", "fn": "match_datadog_query"},
+                          "inp": {"leaf": leaf, "ev": absev, "q": q, "shape": shape}, "event": {"t": "obj", "m": conc},
+                          "exprs": {"m": f"match_datadog_query(., {vrl_str(q)})"}})
+        def absev(n=None, a=None, tags=()):
+            return {"has_n": n is not None, "n10": n["n10"] if n else 0, "has_a": a is not None, "a": list(a) if a is not None else [], "tags": [[ord(c) for c in t] for t in tags]}
+        nvals = [None] + U["NUMVALS"]
+        for v in nvals:
+            conc = {} if v is None else {"n": num_val(v)}
+            vs = "absent" if v is None else ("float" if v["fl"] else "int")
+            for b in U["NUMBOUNDS"]:
+                for bf in ((False, True) if b % 10 == 0 else (False,)):
+                    bs = "float-bound" if (bf or b % 10) else "int-bound"
+                    for op, sym in OPS.items():
+                        leaf_case({"k": "num_cmp", "op": op, "b10": b}, f"@n:{sym}{num_text(b, bf)}", absev(n=v), conc, f"num-cmp:{vs}-value/{bs}")
+            for lo in U["NUMBOUNDS"]:
+                for hi in U["NUMBOUNDS"]:
+                    if lo <= hi and (tier != "quick" or rnd.random() < 0.5):
+                        for lb, ub, incl in (("[", "]", True), ("{", "}", False)):
+                            leaf_case({"k": "num_range", "incl": incl, "lo10": lo, "hi10": hi}, f"@n:{lb}{num_text(lo)} TO {num_text(hi)}{ub}", absev(n=v), conc,
+                                      f"num-range:{vs}-value/" + ("float-bound" if (lo % 10 or hi % 10) else "int-bound"))
+        for a in [None] + U["STRVALS"]:
+            conc = {} if a is None else {"a": {"t": "bytes", "s": cps(a)}}
+            for b in U["STRBOUNDS"]:
+                for op, sym in OPS.items():
+                    leaf_case({"k": "str_cmp", "op": op, "s": b}, f"@a:{sym}{qtext(b)}", absev(a=a), conc, "str-cmp")
+                for hi in U["STRBOUNDS"]:
+                    for lb, ub, incl in (("[", "]", True), ("{", "}", False)):
+                        leaf_case({"k": "str_range", "incl": incl, "lo": b, "hi": hi}, f"@a:{lb}{qtext(b)} TO {qtext(hi)}{ub}", absev(a=a), conc, "str-range")
+            for t in U["STRVALS"]:
+                leaf_case({"k": "attr_term", "s": t}, f"@a:{qtext(t)}", absev(a=a), conc, "attr-term")
+            for g in U["GLOBS"]:
+                if g != [42]:
+                    leaf_case({"k": "attr_glob", "s": g}, f"@a:{cps(g)}", absev(a=a), conc, "attr-wildcard")
+            leaf_case({"k": "exists"}, "_exists_:@a", absev(a=a), conc, "exists")
+            leaf_case({"k": "missing"}, "_missing_:@a", absev(a=a), conc, "missing")
+        for tags in U["TAGS"]:
+            conc = {"tags": {"t": "arr", "e": [{"t": "bytes", "s": t} for t in tags]}}
+            for key in ("k", "j"):
+                for val in ("v", "w", "vv"):
+                    leaf_case({"k": "tag_term", "key": [ord(c) for c in key], "s": [ord(c) for c in val]}, f"{key}:{val}", absev(tags=tags), conc, "tag-term")
+                for g in ("v*", "*v", "*"):
+                    leaf_case({"k": "tag_glob", "key": [ord(c) for c in key], "s": [ord(c) for c in g]}, f"{key}:{g}", absev(tags=tags), conc, "tag-wildcard")
     rnd.shuffle(cases)
     log(f"[{prop}] {len(cases)} cases ({time.time()-t0:.0f}s)")
     cpath = os.path.join(wd, "cases.ndjson")
